@@ -1,3 +1,269 @@
-import MvModel.Text
+/-
+  C33 — Text normalization invariants.  Property theorems only.
+  Model: MvModel/Text.lean (mirror of /repo/src/text.rs); helper lemmas: C33Lemmas.lean; the toy
+  Unicode used for non-vacuity and for the counterexamples: C33Toy.lean.
+
+  The Unicode tables are parameters (`U : Uni`); what is assumed of them is spelled out in
+  `CharLaws` (three facts about ' ' and '\n'), `SegLaws` (segmentation = consecutive non-empty
+  pieces) and `NfkcLaws` (idempotent; stable texts are closed under substring and under joining
+  with a space / newline; NFKC creates no control characters).
+
+  `normalizeCfg keep trail` is the pipeline with/without the two repairs of fixes/C33.diff;
+  `normalize = normalizeCfg (some [LF, CR, TAB]) true` is the repaired code, `normalizeOrig =
+  normalizeCfg none false` the code as found.  Clauses that hold for both are stated for every
+  configuration; the NFKC, idempotence and trailing-whitespace clauses are FALSE for the code as
+  found (`C33_counterexample_unfixed`) and proved for the repaired code.
+-/
+import MvProps.C33Lemmas
+import MvProps.C33Toy
 namespace Mv.Text
+
+variable {U : Uni} {keep : Option (List Char)} {trail : Bool} {input out : List Char} {limit : Nat} {tr : Bool}
+
+/-- The theorems about `normalize` apply to the working tree: the pipeline shape read from
+    src/text.rs (tools/gen/C33.py) is the repaired one. Fails to elaborate on the unrepaired code. -/
+theorem C33_source_is_repaired : normalizeSrc = normalize := by
+  unfold normalizeSrc normalize
+  rfl
+
+/-- **ends on a grapheme boundary**: the output is the concatenation of the first `k ≥ 1` grapheme
+    clusters of the cleaned text, hence a prefix of it, and all of it when not truncated. -/
+theorem C33_boundary (S : SegLaws U) (h : normalizeCfg keep trail U input limit = some (out, tr)) :
+    ∃ k, 1 ≤ k ∧ k ≤ (U.graphemes (cleanedText keep U input)).length ∧
+      out = ((U.graphemes (cleanedText keep U input)).take k).flatten ∧
+      out <+: cleanedText keep U input ∧
+      (tr = false → out = cleanedText keep U input) := by
+  obtain ⟨_, k, h1, h2, h3, _, h5, _, _⟩ := normalize_spec S h
+  refine ⟨k, h1, h2, h3, ?_, h5⟩
+  rw [h3]
+  have := take_flatten_prefix (U.graphemes (cleanedText keep U input)) k
+  rwa [S.flat] at this
+
+/-- **byte limit with the first-grapheme exception** (the effective limit is `limit.max(1)`) -/
+theorem C33_limit (S : SegLaws U) (h : normalizeCfg keep trail U input limit = some (out, tr)) :
+    bytes out ≤ max limit 1 ∨
+    (∃ rest, U.graphemes (cleanedText keep U input) = out :: rest ∧ max limit 1 < bytes out) := by
+  obtain ⟨_, k, _, h2, h3, _, _, h6, _⟩ := normalize_spec S h
+  rw [MIN_LIMIT_eq] at h6
+  rcases h6 with h6 | ⟨hk, h6⟩
+  · exact Or.inl h6
+  · right
+    subst hk
+    cases hgs : U.graphemes (cleanedText keep U input) with
+    | nil => rw [hgs] at h2; simp at h2
+    | cons g rest => rw [hgs] at h3; simp at h3; exact ⟨rest, by rw [h3], h6⟩
+
+/-- the same clause against the caller's `limit` itself -/
+theorem C33_limit_raw (S : SegLaws U) (h : normalizeCfg keep trail U input limit = some (out, tr)) :
+    bytes out ≤ limit ∨
+    (∃ rest, U.graphemes (cleanedText keep U input) = out :: rest ∧ limit < bytes out) := by
+  rcases C33_limit S h with h1 | ⟨rest, h1, h2⟩
+  · rcases Nat.lt_or_ge limit (bytes out) with hlt | hge
+    · right
+      obtain ⟨_, k, hk1, hk2, h3, _⟩ := normalize_spec S h
+      have hge := bytes_take_ge (S.ne _) hk2
+      rw [← h3] at hge
+      have hk : k = 1 := by omega
+      subst hk
+      cases hgs : U.graphemes (cleanedText keep U input) with
+      | nil => rw [hgs] at hk2; simp at hk2
+      | cons g rest => rw [hgs] at h3; simp at h3; exact ⟨rest, by rw [h3], hlt⟩
+    · exact Or.inl hge
+  · exact Or.inr ⟨rest, h1, by omega⟩
+
+/-- the `truncated` flag says exactly whether the cleaned text exceeds the limit -/
+theorem C33_truncated_iff (S : SegLaws U) (h : normalizeCfg keep trail U input limit = some (out, tr)) :
+    tr = false ↔ bytes (cleanedText keep U input) ≤ max limit 1 := by
+  obtain ⟨_, k, _, _, _, h4, _⟩ := normalize_spec S h
+  rwa [MIN_LIMIT_eq] at h4
+
+/-- **no control characters other than newline** -/
+theorem C33_no_control (L : CharLaws U) (S : SegLaws U)
+    (h : normalizeCfg keep trail U input limit = some (out, tr)) :
+    ∀ c ∈ out, U.isControl c = true → c = '\n' := by
+  obtain ⟨_, _, _, _, hp, _⟩ := C33_boundary S h
+  exact fun c hc => (good_trim_clean L _).ctl c (hp.subset hc)
+
+/-- **no runs of spaces, no blank lines**: the only whitespace characters are ' ' and '\n', and
+    no two adjacent characters are both whitespace (so no "  ", no "\n\n", no " \n", no "\n ") -/
+theorem C33_no_runs (L : CharLaws U) (S : SegLaws U)
+    (h : normalizeCfg keep trail U input limit = some (out, tr)) :
+    (∀ c ∈ out, U.isWhitespace c = true → c = ' ' ∨ c = '\n') ∧
+    (∀ a b, [a, b] <:+: out → ¬ (U.isWhitespace a = true ∧ U.isWhitespace b = true)) := by
+  obtain ⟨_, _, _, _, hp, _⟩ := C33_boundary S h
+  have g := good_trim_clean L (U.nfkc (prefilter keep U input))
+  exact ⟨fun c hc => g.ws c (hp.subset hc), noAdj_infix hp.isInfix g.adj⟩
+
+/-- **no leading whitespace** (and the output is not empty) -/
+theorem C33_trimmed_start (L : CharLaws U) (S : SegLaws U)
+    (h : normalizeCfg keep trail U input limit = some (out, tr)) :
+    out ≠ [] ∧ ∀ c, out.head? = some c → U.isWhitespace c = false := by
+  obtain ⟨hne, k, hk1, hk2, h3, _⟩ := normalize_spec S h
+  obtain ⟨_, _, _, _, hp, _⟩ := C33_boundary S h
+  have g := good_trim_clean L (U.nfkc (prefilter keep U input))
+  have hout : out ≠ [] := by
+    intro e
+    have := bytes_take_ge (S.ne _) hk2
+    rw [← h3, e, bytes_nil] at this
+    omega
+  refine ⟨hout, fun c hc => g.head c ?_⟩
+  show (cleanedText keep U input).head? = some c
+  cases ht : cleanedText keep U input with
+  | nil => exact absurd ht hne
+  | cons x r =>
+    rw [ht] at hp
+    have := prefix_head hp hout
+    rw [this] at hc
+    simpa using hc
+
+/-- **no trailing whitespace when nothing was cut** (every configuration) -/
+theorem C33_trimmed_end_untruncated (L : CharLaws U) (S : SegLaws U)
+    (h : normalizeCfg keep trail U input limit = some (out, false)) :
+    ∀ c, out.getLast? = some c → U.isWhitespace c = false := by
+  obtain ⟨_, _, _, _, _, he⟩ := C33_boundary S h
+  rw [he rfl]
+  exact (good_trim_clean L _).last
+
+/-- **no trailing whitespace, repaired code**: a trailing whitespace character is only possible when
+    the output is exactly the first grapheme cluster of a longer text (the never-empty fallback)
+    and that cluster itself ends in whitespace. -/
+theorem C33_trimmed_end_partial (L : CharLaws U) (S : SegLaws U)
+    (h : normalizeCfg keep true U input limit = some (out, tr)) :
+    ∀ c, out.getLast? = some c → U.isWhitespace c = true →
+      tr = true ∧ ∃ rest, U.graphemes (cleanedText keep U input) = out :: rest := by
+  intro c hc hw
+  obtain ⟨_, k, hk1, hk2, h3, _, h5, _, h7⟩ := normalize_spec S h
+  cases htr : tr with
+  | false =>
+    subst htr
+    have := C33_trimmed_end_untruncated L S h c hc
+    rw [this] at hw; cases hw
+  | true =>
+    refine ⟨rfl, ?_⟩
+    rcases h7 rfl htr with hk | hlast
+    · subst hk
+      cases hgs : U.graphemes (cleanedText keep U input) with
+      | nil => rw [hgs] at hk2; simp at hk2
+      | cons g rest => rw [hgs] at h3; simp at h3; exact ⟨rest, by rw [h3]⟩
+    · exfalso
+      -- the last kept cluster does not end in whitespace
+      have hne : (U.graphemes (cleanedText keep U input)).take k ≠ [] := by
+        intro e
+        have := congrArg List.length e
+        rw [List.length_take, List.length_nil] at this
+        omega
+      obtain ⟨g, hg⟩ : ∃ g, ((U.graphemes (cleanedText keep U input)).take k).getLast? = some g := by
+        cases hl : ((U.graphemes (cleanedText keep U input)).take k).getLast? with
+        | none => exact absurd (List.getLast?_eq_none_iff.mp hl) hne
+        | some g => exact ⟨g, rfl⟩
+      have hgne : g ≠ [] :=
+        S.ne _ g ((List.take_subset _ _) (List.mem_of_getLast? hg))
+      have hl := flatten_getLast hg hgne
+      rw [← h3, hc] at hl
+      have he := hlast g hg
+      unfold endsWs at he
+      rw [← hl] at he
+      simp only at he
+      rw [he] at hw; cases hw
+
+/-- the trailing-whitespace clause at full strength, for the repaired code -/
+def C33_trimmed_full : Prop :=
+  ∀ (U : Uni), CharLaws U → SegLaws U → NfkcLaws U → ∀ input limit out tr,
+    normalize U input limit = some (out, tr) → ∀ c, out.getLast? = some c → U.isWhitespace c = false
+
+/-- it is false even after the repair: a Prepend character glues the following space into its
+    cluster (GB9b); when that cluster is the only one that fits, the fallback returns it whole. -/
+theorem C33_trimmed_counterexample : ¬ C33_trimmed_full := by
+  intro h
+  have := h toyU toy_char toy_seg toy_nfkc [PRE, ' ', 'x'] 3 [PRE, ' '] true (by decide) ' ' (by decide)
+  exact absurd this (by decide)
+
+/-- **NFKC-normalized** (repaired code) -/
+theorem C33_nfkc (L : CharLaws U) (S : SegLaws U) (N : NfkcLaws U)
+    (h : normalize U input limit = some (out, tr)) : U.nfkc out = out := by
+  obtain ⟨_, _, _, _, hp, _⟩ := C33_boundary S h
+  exact stable_infix N hp.isInfix (stable_cleanedText L N input)
+
+/-- **idempotence on untruncated outputs** (repaired code): normalizing an untruncated output again,
+    with the same or any other limit it fits in, returns it unchanged and untruncated -/
+theorem C33_idem (L : CharLaws U) (S : SegLaws U) (N : NfkcLaws U)
+    (h : normalize U input limit = some (out, false)) :
+    normalize U out limit = some (out, false) ∧
+    ∀ limit', bytes out ≤ max limit' 1 → normalize U out limit' = some (out, false) := by
+  obtain ⟨hne, _, _, _, _, h4, h5, _⟩ := normalize_spec S h
+  have he : out = cleanedText (some ['\n', '\r', '\t']) U input := h5 rfl
+  have hg : Good U out := by rw [he]; exact good_trim_clean L _
+  have hs : Stable U out := by rw [he]; exact stable_cleanedText L N input
+  have hid := cleanedText_id L hg hs
+  have key : ∀ limit', bytes out ≤ max limit' 1 → normalize U out limit' = some (out, false) := by
+    intro limit' hfit
+    unfold normalize normalizeCfg
+    simp only [hid]
+    have hne' : out.isEmpty = false := by
+      rw [he]; cases hc : cleanedText (some ['\n', '\r', '\t']) U input with
+      | nil => exact absurd hc hne
+      | cons x r => rfl
+    rw [MIN_LIMIT_eq, takeFit_all _ _ 0 (by rw [S.flat]; omega)]
+    simp [S.flat, hne']
+  refine ⟨key limit ?_, key⟩
+  have := h4.mp rfl
+  rw [MIN_LIMIT_eq, ← he] at this
+  exact this
+
+/-- **truncate_at_grapheme_boundary**: the index is the byte length of a whole number `k` of leading
+    clusters; it is within the limit unless it is the first cluster alone and that exceeds the limit;
+    it is the largest such index (the next cluster would not fit); it is 0 only for the empty text. -/
+theorem C33_truncate (S : SegLaws U) (s : List Char) (limit : Nat) :
+    ∃ k, k ≤ (U.graphemes s).length ∧
+      truncIdx U s limit = bytes ((U.graphemes s).take k).flatten ∧
+      (truncIdx U s limit ≤ limit ∨ (k = 1 ∧ limit < truncIdx U s limit)) ∧
+      (k < (U.graphemes s).length → limit < bytes ((U.graphemes s).take (k + 1)).flatten) ∧
+      (s ≠ [] → 0 < truncIdx U s limit) :=
+  truncIdx_spec S s limit
+
+/-! ### the code as found -/
+
+/-- NFKC, idempotence and trailing-whitespace clauses at full strength for the unrepaired code -/
+def C33_unfixed_full : Prop :=
+  ∀ (U : Uni), CharLaws U → SegLaws U → NfkcLaws U → ∀ input limit out tr,
+    normalizeOrig U input limit = some (out, tr) →
+      U.nfkc out = out ∧ (tr = false → normalizeOrig U out limit = some (out, false)) ∧
+      (∀ c, out.getLast? = some c → U.isWhitespace c = false)
+
+/-- `e U+0001 U+0301`: NFKC leaves it alone, the control character is removed afterwards, and the
+    output `e U+0301` is neither NFKC nor a fixed point (normalizing again gives `é`). -/
+theorem C33_counterexample_unfixed : ¬ C33_unfixed_full := by
+  intro h
+  have := (h toyU toy_char toy_seg toy_nfkc ['e', Char.ofNat 1, ACUTE] 100 ['e', ACUTE] false (by decide)).1
+  exact absurd this (by decide)
+
+/-- the same witness against idempotence only -/
+theorem C33_counterexample_unfixed_idem :
+    normalizeOrig toyU ['e', Char.ofNat 1, ACUTE] 100 = some (['e', ACUTE], false) ∧
+    normalizeOrig toyU ['e', ACUTE] 100 = some ([EACUTE], false) := by
+  constructor <;> decide
+
+/-- `ab cd` cut at 3 bytes keeps the space: trailing whitespace in the code as found -/
+theorem C33_counterexample_unfixed_trailing :
+    normalizeOrig toyU ['a', 'b', ' ', 'c', 'd'] 3 = some (['a', 'b', ' '], true) := by decide
+
+/-! ### non-vacuity: the toy Unicode satisfies every assumed law, and the repaired pipeline
+    produces non-trivial results on it -/
+
+example : CharLaws toyU ∧ SegLaws toyU ∧ NfkcLaws toyU := ⟨toy_char, toy_seg, toy_nfkc⟩
+
+/-- the defect witness under the repaired arrangement: composed, stable, untruncated -/
+example : normalize toyU ['e', Char.ofNat 1, ACUTE] 100 = some ([EACUTE], false) := by decide
+example : normalize toyU [EACUTE] 100 = some ([EACUTE], false) := by decide
+/-- whitespace compaction, CR/TAB rewriting, control removal, trimming -/
+example : normalize toyU [' ', 'a', '\t', '\t', 'b', ' ', '\r', '\n', Char.ofNat 7, ' ', 'c', ' '] 100
+    = some (['a', ' ', 'b', '\n', 'c'], false) := by decide
+/-- truncation: the cut backs off over the space -/
+example : normalize toyU ['a', 'b', ' ', 'c', 'd'] 3 = some (['a', 'b'], true) := by decide
+/-- first-grapheme exception: `e`+U+0301+U+0301 is one 4-byte cluster (`é` + mark), limit 2 -/
+example : normalize toyU ['e', ACUTE, ACUTE, 'x'] 2 = some ([EACUTE, ACUTE], true) := by decide
+example : truncIdx toyU ['e', ACUTE, ACUTE, 'x'] 2 = 5 := by decide
+example : truncIdx toyU ['a', 'e', ACUTE, 'x'] 3 = 1 := by decide
+example : truncIdx toyU ['a', 'e', ACUTE, 'x'] 4 = 4 := by decide
+
 end Mv.Text
